@@ -129,6 +129,10 @@ def diff_fields(c, m, fields=None):
             if (c or {}).get(k) != (m or {}).get(k)}
 
 
+XCHECK = {"cases": 0, "mismatches": 0}
+XCHECK_N = int(os.environ.get("VERIF_XCHECK", "0") or 0)
+
+
 def run_slice(cases, fields=None):
     code, model = tie.run_both([c.line() for c in cases], "p")
     dis = []
@@ -136,6 +140,24 @@ def run_slice(cases, fields=None):
         d = diff_fields(code.get(c.cid), model.get(c.cid), fields)
         if d:
             dis.append({"case": c.to_json(), "tag": c.tag, "differs": d})
+    # extraction + driver are checked, not trusted outright: a sample of this run's cases is evaluated
+    # inside Coq (vm_compute on the model itself) and compared with what the extracted driver printed
+    k = XCHECK_N
+    if k and len(cases) > 1:
+        import coqcheck
+        rng = random.Random(len(cases))
+        pool = [c for c in cases if c.apis != "sweep" and model.get(c.cid, {}).get("C") not in ("SLOW", None)
+                and len(c.pattern) <= 40 and len(c.input) <= 12]
+        sample = [Case(f"x{i}", c.dialect, c.flags, c.pattern, c.input, c.repl, "mr")
+                  for i, c in enumerate(rng.sample(pool, min(k, len(pool))))]
+        if sample:
+            _, m2 = tie.run_both([c.line() for c in sample], "x", code=False)
+            bad = coqcheck.cross_check(sample, m2)
+            XCHECK["cases"] += len(sample)
+            XCHECK["mismatches"] += len(bad)
+            for b in bad[:3]:
+                dis.append({"case": b.get("case") if isinstance(b, dict) else None, "tag": "extraction-cross-check",
+                            "differs": {"in_coq_vs_extracted": b}})
     return code, model, dis
 
 
@@ -150,7 +172,8 @@ def viol(c, expected, got, why, spec=None, same=None):
 
 def result(ctx, cases, dis, violations, nontrivial, rule, extra=None):
     k = min(6, len(cases))
-    return {"evaluations": len(cases), "distinct_nontrivial": len(nontrivial), "rule": rule,
+    return {"xcheck": dict(XCHECK, what="cases evaluated inside Coq by vm_compute and compared with the extracted driver"),
+            "evaluations": len(cases), "distinct_nontrivial": len(nontrivial), "rule": rule,
             "samples": [c.to_json() for c in ctx.rng.sample(cases, k)] if k else [],
             "disagreements": dis, "violations": violations, "extra": extra or {}}
 
